@@ -25,12 +25,12 @@ MCShapes ==
   ("T" :> Sh({}, TRUE, << >>)) @@            \* the schema `true`
   ("F" :> [req |-> {}, open |-> TRUE, types |-> << >>, none |-> TRUE])    \* the schema `false`
 
-\* the two built-in schemas in the abstract key alphabet: ks = mock-build-tags (string), kb = unroll-variadic /
-\* with-resets (boolean); every other key of the alphabet is unknown to them; additionalProperties false,
+\* the two built-in schemas in the abstract key alphabet: ks = mock-build-tags (string, both), kb = unroll-variadic
+\* (boolean, testify only), km = skip-ensure (boolean, matryer only); every other key of the alphabet is unknown to them; additionalProperties false,
 \* nothing required.  The harness compares this with internal/mock_*.templ.schema.json of the tree under test.
 MCBuiltin ==
   ("testify" :> Sh({}, FALSE, ("ks" :> Strs) @@ ("kb" :> {"bool"}))) @@
-  ("matryer" :> Sh({}, FALSE, ("ks" :> Strs) @@ ("kb" :> {"bool"})))
+  ("matryer" :> Sh({}, FALSE, ("ks" :> Strs) @@ ("km" :> {"bool"})))
 
 -----------------------------------------------------------------------------
 (* placements: <<level, key, kind of value>> *)
@@ -74,7 +74,7 @@ Loc(d, a1, a2) == [default |-> d, alt1 |-> a1, alt2 |-> a2, pA1 |-> "absent", pA
 
 Case(fam, tmpl, loc, tsch, req, X, pre, extra) ==
   [id |-> fam \o "/" \o tmpl \o "/" \o extra \o "/" \o IdOf(X), fam |-> fam, tmpl |-> tmpl, loc |-> loc,
-   tsch |-> tsch, req |-> req, data |-> DataOf(X), pre |-> pre]
+   tsch |-> tsch, req |-> req, data |-> DataOf(X), pre |-> pre, tpl |-> Unset]
 
 ReqCode(r) == CASE r = "unset" -> "u" [] r = "true" -> "t" [] r = "false" -> "f"
 
@@ -136,8 +136,9 @@ FamR(tmpls, rootreqs, pkgreqs, a1reqs, a2reqs) ==
 \*    the type is the only thing that can be wrong.
 \*    pair = <<key, conforming kind, violating look-alike kind>>
 \*    ... and the JSON null in place of the look-alike: `key: null` / `key:` / `key: ~`
-LookPairs(t) == {<<"kb", "bool", "strT">>, <<"ks", "strT", "bool">>, <<"ks", "str1", "int">>,
-                 <<"kb", "bool", "null">>, <<"ks", "str", "null">>}
+BoolKey(t)   == IF t = "matryer" THEN "km" ELSE "kb"
+LookPairs(t) == {<<BoolKey(t), "bool", "strT">>, <<"ks", "strT", "bool">>, <<"ks", "str1", "int">>,
+                 <<BoolKey(t), "bool", "null">>, <<"ks", "str", "null">>}
                 \cup (IF t \in {"testify", "matryer"} THEN {}
                       ELSE {<<"ki", "int", "str1">>, <<"ki", "int", "null">>, <<"ko", "obj", "null">>})
 PairCode(pr) == pr[1] \o "-" \o pr[2] \o "-" \o pr[3]
@@ -180,10 +181,24 @@ FamP(tmpls) ==
 \* N: a null on its own -- for a typed key, a required key, an unknown key -- at every level, under a closed, an open
 \*    and a required-key schema (an unknown key with a null value is fine under an open schema only)
 FamN(tmpls) ==
-  \E t \in tmpls, k \in {"ks", "kb", "zz", "ki"}, lv \in Levels, ds \in {"CL", "OP", "RC"} :
+  \E t \in tmpls, k \in {"ks", "kb", "km", "zz", "ki"}, lv \in Levels, ds \in {"CL", "OP", "RC"} :
     /\ (t \in {"testify", "matryer"} => ds = "CL" /\ k # "ki")
+    /\ (k = "km" <=> t = "matryer") /\ (k = "kb" => t # "matryer")
     /\ InitWith([Case("N", t, Loc(ds, "absent", "absent"), Unset, Unset, {}, {}, ds \o "." \o k \o "." \o LevCode(lv))
                  EXCEPT !.data = DataOf({<<lv, k, "null">>} \cup (IF ds = "RC" /\ k # "ks" THEN {KsRoot} ELSE {}))])
+
+\* M: runs that MIX template kinds -- root template rt, interface A1 / A2 override it (or not) -- optionally with an
+\*    explicit template-schema and require-template-schema-exists at root, which the built-in files inherit and must
+\*    ignore; data conforming to one built-in schema only (kb: testify, km: matryer)
+DataM == <<{}, {KsRoot}, {<<"iA1", "kb", "bool">>, <<"iA2", "km", "bool">>}, {<<"iA1", "km", "bool">>}, {<<"root", "kb", "bool">>},
+           {KsRoot, <<"e2", "zz", "str">>}, {KsRoot, <<"iA1", "kb", "bool">>, <<"iA2", "km", "bool">>}, {<<"iA2", "kb", "bool">>}>>
+FamM(roots, custom) ==
+  \E rt \in roots, t1 \in {"unset", "testify", "matryer", custom}, t2 \in {"unset", "testify", "matryer", custom},
+     ts \in {"unset", "alt1"}, as \in {"RC", "absent"}, rr \in {"unset", "false"}, j \in 1..Len(DataM) :
+    /\ ~(t1 = "unset" /\ t2 = "unset")
+    /\ InitWith([Case("M", rt, Loc("RC", as, "absent"), Only("root", ts), Only("root", rr), DataM[j], {},
+                      t1 \o "," \o t2 \o "." \o ts \o as \o "." \o ReqCode(rr) \o ".d" \o ToString(j))
+                 EXCEPT !.tpl = [Unset EXCEPT !["iA1"] = t1, !["iA2"] = t2]])
 
 \* E: an output file exists already (force-file-write: true): a rejected file keeps its old bytes
 FamE(tmpls) ==
@@ -201,6 +216,7 @@ InitQuick ==
   \/ FamD({"file"}, DataB)
   \/ FamL({"testify", "matryer", "file"})
   \/ FamN({"testify", "matryer", "file"})
+  \/ FamM({"file", "testify"}, "file")
   \/ FamX({"file"})
   \/ FamS({"file", "http"})
   \/ FamP({"file"})
@@ -215,6 +231,8 @@ InitThorough ==
   \/ FamD({"file", "http"}, DataB)
   \/ FamL({"testify", "matryer", "file", "http"})
   \/ FamN({"testify", "matryer", "file", "http"})
+  \/ FamM({"file", "testify", "matryer"}, "file")
+  \/ FamM({"http"}, "http")
   \/ FamX({"file", "http"})
   \/ FamS({"file", "http"})
   \/ FamP({"file", "http"})
